@@ -171,6 +171,8 @@ def run(repo, rep, tier):
     probs = [x for x in rp["problems"] if "cell loop runs over" in x or "leaves the loop" in x or "not the cell at" in x]
     ok = rp["visits_all"] and rp["cell_ok"] and not probs
     rep.ob("C02.R3", rp["loop"], "every cell of the row is encoded in column order", ok, "; ".join(probs), key="C02.R3@row-all-cells")
+    stale = [x for x in rp["problems"] if "re-encoded" in x or "record is kept" in x]
+    rep.ob("C02.R3", rp["loop"], "every cell is re-encoded on every save (its record carries keys of the lists the save rebuilds)", not stale, "; ".join(stale), key="C02.R3@row-fresh-records")
 
     # ---- R4 read accessors are pure w.r.t. saved state
     ea = EffectAnalysis(repo)
@@ -201,6 +203,7 @@ def run(repo, rep, tier):
 
 
 VARIANTS = [
+    M("row-record-kept-between-saves", "model.py", "            buffer = data[row][col]._to_buffer()\n", "            if data[row][col]._storage is None:\n                data[row][col]._storage = data[row][col]._to_buffer()\n            buffer = data[row][col]._storage\n", "C02.R3"),
     M("copy-flags-truthy-only", "cell.py", "            setattr(self, flag, getattr(storage_flags, flag))\n", "            if getattr(storage_flags, flag):\n                setattr(self, flag, getattr(storage_flags, flag))\n", "C02.R1"),
     M("encoder-drops-suggest", "cell.py", "        if self._suggest_id is not None:\n            flags |= 0x1000\n            length += 4\n            storage += pack(\"<i\", self._suggest_id)\n", "", "C02.R1"),
     M("flags-field-removed", "cell.py", "    _control_id: int = None\n", "", "C02.R1"),
